@@ -23,6 +23,7 @@ type Clause struct {
 	Exprs []ast.Expr // modifies: list of designators
 	Loop  int        // loop ordinal (1-based) for invariant/lmodifies
 	Ord   int        // ordinal among clauses of the same kind
+	Assumed bool     // postulate: a postcondition that is used by callers but not checked against the body
 	File  string
 	Line  int
 }
@@ -85,7 +86,15 @@ type ModSet struct {
 	Exprs  []ast.Expr
 }
 
+// GState: ghost state function (a specification-only map, e.g. the file
+// system): read as name(key), framed as name[key] / name[*].
+type GState struct {
+	Name, Pkg    string
+	Param, Result string // "string" | "int" | "bool"
+}
+
 type ContractSet struct {
+	GStates map[string]*GState
 	ModSets map[string]*ModSet
 	UFuns   map[string]*UFun
 	Axioms  []*Axiom
@@ -96,10 +105,10 @@ type ContractSet struct {
 	Files   []string
 }
 
-var clauseRe = regexp.MustCompile(`^(premise|requires|ensures|modifies|loop|use|func|extern|iface|pred|ghost|devirt|noeffect|assumed|inline|safety|nosafety|params|pure|ufun|axiom|serves|modset|callsite)\b`)
+var clauseRe = regexp.MustCompile(`^(premise|postulate|requires|ensures|modifies|loop|use|func|extern|iface|pred|ghost|devirt|noeffect|assumed|inline|safety|nosafety|params|pure|ufun|axiom|serves|modset|callsite|gstate)\b`)
 
 func newContractSet() *ContractSet {
-	return &ContractSet{Funcs: map[string]*Contract{}, Defs: map[string]*SpecDef{}, NoEffectIfaces: map[string]bool{}, UFuns: map[string]*UFun{}, ModSets: map[string]*ModSet{}}
+	return &ContractSet{Funcs: map[string]*Contract{}, Defs: map[string]*SpecDef{}, NoEffectIfaces: map[string]bool{}, UFuns: map[string]*UFun{}, ModSets: map[string]*ModSet{}, GStates: map[string]*GState{}}
 }
 
 // loadContractFile parses one file. pkgName is the Go package short name that
@@ -183,6 +192,16 @@ func (cs *ContractSet) loadFileAs(path string, pkgKey string) error {
 			}
 			ms.Exprs = es
 			cs.ModSets[pkgName+"."+ms.Name] = ms
+			cur = nil
+		case "gstate":
+			// gstate name(keytype) resulttype
+			lp, rp := strings.Index(rest, "("), strings.LastIndex(rest, ")")
+			if lp < 0 || rp < lp {
+				return fail(fmt.Errorf("gstate wants: name(keytype) resulttype"))
+			}
+			pf := strings.Fields(rest[lp+1 : rp])
+			g := &GState{Name: strings.TrimSpace(rest[:lp]), Pkg: pkgName, Param: pf[len(pf)-1], Result: strings.TrimSpace(rest[rp+1:])}
+			cs.GStates[g.Name] = g
 			cur = nil
 		case "ufun":
 			// ufun name(t1, t2) result   -- uninterpreted specification function
@@ -403,6 +422,10 @@ func (ct *Contract) addClause(kw, rest, file string, line int) error {
 		ct.Requires = append(ct.Requires, cl)
 	case "ensures":
 		cl.Ord = len(ct.Ensures)
+		ct.Ensures = append(ct.Ensures, cl)
+	case "postulate":
+		cl.Ord = len(ct.Ensures)
+		cl.Assumed = true
 		ct.Ensures = append(ct.Ensures, cl)
 	}
 	return nil
